@@ -25,6 +25,7 @@ def tok(v) -> str:
 
 def impl_case(args) -> dict:
     idx, files, runs, cli, root = args
+    repeat = cli.get("repeat", [])
     import src.orchestrator.core as oc
     from src.orchestrator.core import Orchestrator
     proj = Path(root) / f"r{idx}" / "proj"
@@ -32,6 +33,7 @@ def impl_case(args) -> dict:
     try:
         write_project(proj, files, cli["project_cfg"])
         fs = [proj / rel for rel, _ in files]
+        fs += [fs[i] for i in repeat]        # a file may be named more than once (repeated argument, overlapping globs)
         core._reset_singletons()
         seq = [tok(v) for v in Orchestrator(project_root=proj).lint_files(list(fs))]
         perfile = []
@@ -66,7 +68,8 @@ def impl_case(args) -> dict:
                 extra = ["--config", "alt-config.yaml"]
             res = {"cmd": cmd, "config_file": cfg_text}
             for mode in ("seq", "par"):
-                a = [cmd, "--format", "json"] + extra + (["--parallel"] if mode == "par" else []) + [cli["target"]]
+                tgt = [str(f.relative_to(proj)) for f in fs] if cli["target"] == "FILES" else [cli["target"]]
+                a = [cmd, "--format", "json"] + extra + (["--parallel"] if mode == "par" else []) + tgt
                 code, stdout = core.run_cli(a, cwd=proj)
                 vs = core.violations_json(stdout)
                 res[mode] = {"exit": code, "vs": None if vs is None else sorted(json.dumps(v, sort_keys=True) for v in vs), "raw": stdout[:200] if vs is None else ""}
@@ -83,6 +86,8 @@ def gen_case(rng, idx, tier):
     n = rng.choice([2, 5, 9, 15, 16, 17, 20, 24, 33, 40] if tier == "thorough" else [3, 9, 15, 16, 17, 22, 34])
     files = gen_project(rng, n)
     n = len(files)      # gen_project may add extensionless files
+    repeat = [rng.randrange(n) for _ in range(rng.choice([1, 2, 3]))] if rng.random() < 0.3 else []
+    n += len(repeat)
     runs = []
     for _ in range(3 if tier == "quick" else 5):
         k = rng.choice([1, 2, 3, 4, 5, 6, 7, 8, 9, 10, 12, 16])
@@ -102,15 +107,15 @@ def gen_case(rng, idx, tier):
         json.dumps(allowed), rng.choice([2, 3, 7, 9]))
     cfgs = [None, "# stock configuration\n", "nesting:\n  max_nesting_depth: 2\nmagic-numbers:\n  allowed_numbers: [7]\n"]
     cli_runs = [("nesting", rng.choice(cfgs)), ("magic-numbers", rng.choice(cfgs)), (rng.choice(CLI_CMDS), rng.choice(cfgs))]
-    cli = {"runs": cli_runs, "target": rng.choice([".", ".", "pkg_a", "."]), "project_cfg": project_cfg}
+    cli = {"runs": cli_runs, "target": rng.choice([".", ".", "pkg_a", ".", "FILES"]), "project_cfg": project_cfg, "repeat": repeat}
     return {"idx": idx, "files": files, "runs": runs, "cli": cli}
 
 
 def run(tier: str, seed: int, st: core.ProofStatus) -> core.Result:
     res = core.Result()
     res.rule = ("seeded multi-language projects (2-40 files in 4 directories with repeated base names, planted per-file findings and "
-                "cross-file duplicates) x worker counts 1..16 x forced completion orders through the real process pool, plus CLI "
-                "sequential vs --parallel from a relative target with optional explicit --config; non-trivial = a pooled run (files >= "
+                "cross-file duplicates; a third of the file lists name a file more than once) x worker counts 1..16 x forced completion orders through the real process pool, plus CLI "
+                "sequential vs --parallel from a relative directory target or the explicit file list, with optional explicit --config; non-trivial = a pooled run (files >= "
                 "2 x workers) with at least 3 violations; distinct = distinct (project, workers, order)")
     rng = core.sub_rng(seed, PROP, tier)
     n_cases = 24 if tier == "quick" else 400
@@ -140,6 +145,7 @@ def run(tier: str, seed: int, st: core.ProofStatus) -> core.Result:
             res.bump("workers", k)
             res.bump("files", len(c["files"]))
             res.bump("pooled", m["pooled"])
+            res.bump("file list", "with repeated entries" if c["cli"].get("repeat") else "distinct files")
             if m["pooled"] and len(par) >= 3:
                 res.nontrivial.add(core.canon([small["files"], k, order]))
             spec_ok = sorted(par) == sorted(im["seq"])
@@ -160,6 +166,7 @@ def run(tier: str, seed: int, st: core.ProofStatus) -> core.Result:
         for cli in im["cli"]:
             res.evaluations += 1
             res.bump("cli_cmd", cli["cmd"])
+            res.bump("cli_target", "explicit file list" + (" with repeats" if c["cli"].get("repeat") else "") if c["cli"]["target"] == "FILES" else "directory")
             res.bump("cli_config", "none" if cli["config_file"] is None else ("empty" if cli["config_file"].startswith("#") else "settings"))
             s, p = cli["seq"], cli["par"]
             ccase = {**small, "project": c["files"], "cli": {"runs": [[cli["cmd"], cli["config_file"]]], "target": c["cli"]["target"], "project_cfg": c["cli"]["project_cfg"]}}
